@@ -99,6 +99,12 @@ func (e *Engine) ufBody(u *ufSpec) {
 	}
 	u.building = true
 	defer func() { u.building = false }()
+	savedFresh := e.nfresh
+	if e.ufFresh == 0 {
+		e.ufFresh = 500000
+	}
+	e.nfresh = e.ufFresh
+	defer func() { e.ufFresh = e.nfresh; e.nfresh = savedFresh }()
 	x := &Exec{e: e, top: u.fn, spec: &FuncSpec{Key: u.fn.Name(), Loops: map[int]*LoopSpec{}}, qname: "spec." + u.fn.Name()}
 	x.pure = 1
 	x.ufDirect = u.fn
